@@ -114,7 +114,7 @@ class Out:
         bad &= ~same_bad
         with np.errstate(all='ignore'):
             ratio = np.where(np.isfinite(err) & (tol > 0), err / np.where(tol > 0, tol, 1), np.where(bad, np.inf, 0.0))
-        finite_ratio = ratio[np.isfinite(ratio)]
+        finite_ratio = ratio[np.isfinite(ratio) & ~bad]      # headroom of the relations that held
         if finite_ratio.size:
             self.metric = max(self.metric, float(finite_ratio.max()))
         if bad.any():
